@@ -59,7 +59,16 @@ def gen_selection(rng, n, tier):
         mode = rng.choice(["name", "path", "directory"])
         explicit = []
         if mode != "directory" and rng.random() < 0.3:
-            files = [p for p, v in spec.items() if v is not None and not isinstance(v, tuple)]
+            # (explicitly named entries may be symbolic links: the link is the designated entry, not what it points to)
+            # (a dangling link is refused as a command-line argument, so only links to existing files are named)
+            def named_ok(p, v):
+                if v is None:
+                    return False
+                if not isinstance(v, (list, tuple)):
+                    return True
+                target = os.path.normpath(os.path.join(os.path.dirname(p), v[1]))
+                return v[0] == "link" and isinstance(spec.get(target), str)
+            files = [p for p, v in spec.items() if named_ok(p, v)]
             explicit = rng.sample(files, min(len(files), rng.randint(1, 2)))
         expr = {None: None, "glob": rng.choice(GLOBS), "regex": rng.choice(REGEXES), "template": rng.choice(TEMPLATES)}[kind]
         if kind == "regex" and expr == "":
